@@ -76,7 +76,13 @@ fn gen_entry(rng: &mut Rng, max_len: u64, zip64_name: bool) -> (Vec<Mem>, Vec<u8
         if members.iter().any(|m| m.name == name) { continue; }
         let len = match rng.below(8) { 0 => 0, 1 => 1, 2 => max_len, _ => rng.below(max_len + 1) };
         let compressible = rng.chance(1, 2);
-        let content: Vec<u8> = (0..len).map(|i| if compressible { b"int main(){}\n"[(i % 13) as usize] } else { rng.below(256) as u8 }).collect();
+        let mut content: Vec<u8> = (0..len).map(|i| if compressible { b"int main(){}\n"[(i % 13) as usize] } else { rng.below(256) as u8 }).collect();
+        // outputs that are themselves compressed containers (a zstd frame, gzip / xz / zip magic in front of noise): "any contents"
+        match rng.below(12) { 0 => content = zstd::stream::encode_all(Cursor::new(&content), 1).unwrap(),
+            1 => { let mut c = vec![0x28, 0xb5, 0x2f, 0xfd]; c.extend(&content); content = c; }
+            2 => { let mut c = vec![0x1f, 0x8b, 0x08, 0x00]; c.extend(&content); content = c; }
+            3 => { let mut c = b"PK\x03\x04".to_vec(); c.extend(&content); content = c; }
+            _ => {} }
         let mode = if rng.chance(1, 10) { None } else { Some(*rng.pick(&MODES)) };
         w.put_object(&name, &mut Cursor::new(content.clone()), mode).unwrap();
         members.push(Mem { name, content, mode });
